@@ -82,7 +82,7 @@ def run_scenario(chooser: Any, prog_name: str, alphabet: list[str], budget: int,
             horizon = min(tmo if tmo is not None else ACK_TIME / 1000, ACK_TIME / 1000) if op == "write" \
                 else (tmo or 1.0)
             t_start = asyncio.get_running_loop().time()
-            for at in (0.1, horizon - 0.1):
+            for at in (0.1, horizon - 0.3, horizon - 0.05):
                 delay = t_start + at - asyncio.get_running_loop().time()
                 if delay > 0:
                     await asyncio.wait({task}, timeout=delay)
